@@ -306,6 +306,8 @@ def gen_panic(tier, kind, kinds=None, fixed_seed=None):
     for sh in shapes:
         if kinds is not None and not kinds(sh):
             continue
+        if sh.n() == 0 and kind != "user":
+            continue
         for (api, mode, blocking, style) in apis_for(sh):
             ks = ["owned"] + (["lent"] if style == "scoped" else [])
             for keystyle in ks:
@@ -1148,7 +1150,7 @@ def gen_data(tier):
     out = [HEADER]
     names = []
     for sh in all_shapes(tier):
-        if sh.guard is None:
+        if not sh.guard:
             continue
         nm, txt = data_entry(sh)
         names.append(nm)
